@@ -10,6 +10,7 @@ CONSTANT DocMenu <- DMs
 CONSTANT Lims <- L012
 CONSTANT MaxSteps = 12
 CONSTANT Thin = 1
+CONSTANT KeepRoleHist = FALSE
 CONSTANT PageGap = TRUE
 SPECIFICATION SimSpec
 INVARIANT SimExport
